@@ -54,6 +54,66 @@ fn nest_pyramid(d: usize) -> String {
     format!("{}\n", s)
 }
 
+fn nest_index(d: usize) -> String {
+    // a[b[c[...]]]
+    let mut s = String::from("k");
+    for i in 0..d {
+        s = format!("t{}[{}]", i % 3, s);
+    }
+    format!("local x = {}\n", s)
+}
+fn nest_tablekey(d: usize) -> String {
+    // { [{ [...] = 1 }] = 1 }
+    let mut s = String::from("1");
+    for _ in 0..d {
+        s = format!("{{ [{}] = 1 }}", s);
+    }
+    format!("local x = {}\n", s)
+}
+fn nest_unary(d: usize) -> String {
+    let mut s = String::from("a");
+    for i in 0..d {
+        s = if i % 2 == 0 { format!("not ({})", s) } else { format!("-({})", s) };
+    }
+    format!("local x = {}\n", s)
+}
+fn nest_concat(d: usize) -> String {
+    let mut s = String::from("a");
+    for _ in 0..d {
+        s = format!("b .. ({} .. c)", s);
+    }
+    format!("local x = {}\n", s)
+}
+fn nest_ifexpr(d: usize) -> String {
+    let mut s = String::from("a");
+    for _ in 0..d {
+        s = format!("if c then {} else b", s);
+    }
+    format!("local x = {}\n", s)
+}
+fn nest_strcall(d: usize) -> String {
+    // f{ g{ h{ ... } } } : table-call sugar
+    let mut s = String::from("1");
+    for _ in 0..d {
+        s = format!("f {{ {} }}", s);
+    }
+    format!("local x = {}\n", s)
+}
+fn nest_typeassert(d: usize) -> String {
+    let mut s = String::from("a");
+    for _ in 0..d {
+        s = format!("(({}) :: any)", s);
+    }
+    format!("local x = {}\n", s)
+}
+fn nest_ifstmt(d: usize) -> String {
+    let mut s = String::from("x = 1");
+    for _ in 0..d {
+        s = format!("if a then {} end", s);
+    }
+    format!("{}\n", s)
+}
+
 fn extreme_configs() -> Vec<Config> {
     let mut v = Vec::new();
     for w in [1usize, 2, 80, usize::MAX] {
@@ -79,7 +139,9 @@ fn run_(tier: &str, seed: u64) -> Sink {
     let mut sink = Sink::default();
     // ---- ring 2: cost of nested inputs (counters are per thread; run on this thread)
     let maxd = if thorough { 13 } else { 11 };
-    for (name, gen) in [("chain", nest_chain as fn(usize) -> String), ("call", nest_call), ("table", nest_table), ("paren", nest_paren), ("func", nest_func), ("pyramid", nest_pyramid)] {
+    for (name, gen) in [("chain", nest_chain as fn(usize) -> String), ("call", nest_call), ("table", nest_table), ("paren", nest_paren), ("func", nest_func), ("pyramid", nest_pyramid),
+        ("index", nest_index), ("tablekey", nest_tablekey), ("unary", nest_unary), ("concat", nest_concat), ("ifexpr", nest_ifexpr),
+        ("strcall", nest_strcall), ("typeassert", nest_typeassert), ("ifstmt", nest_ifstmt)] {
         let mut slow_reported = false;
         let mut history: Vec<u64> = Vec::new();
         for d in 0..=maxd {
